@@ -5,6 +5,7 @@ package atomic
 
 import (
 	realatomic "sync/atomic"
+	"unsafe"
 
 	"git.metabarcoding.org/obitools/obitools4/obitools4/pkg/vsched"
 )
@@ -15,6 +16,7 @@ func AddInt32(addr *int32, delta int32) int32 {
 	if !vsched.Active() {
 		return realatomic.AddInt32(addr, delta)
 	}
+	vsched.SetDep(uint64(uintptr(unsafe.Pointer(addr)))*2)
 	vsched.Yield("atomic.AddInt32", kAtomic, 0)
 	vsched.HAcq(*vsched.RelSlot(0))
 	*vsched.RelSlot(0) = vsched.HRel()
@@ -26,6 +28,7 @@ func AddInt64(addr *int64, delta int64) int64 {
 	if !vsched.Active() {
 		return realatomic.AddInt64(addr, delta)
 	}
+	vsched.SetDep(uint64(uintptr(unsafe.Pointer(addr)))*2)
 	vsched.Yield("atomic.AddInt64", kAtomic, 0)
 	vsched.HAcq(*vsched.RelSlot(0))
 	*vsched.RelSlot(0) = vsched.HRel()
@@ -37,6 +40,7 @@ func LoadInt32(addr *int32) int32 {
 	if !vsched.Active() {
 		return realatomic.LoadInt32(addr)
 	}
+	vsched.SetDep(uint64(uintptr(unsafe.Pointer(addr)))*2)
 	vsched.Yield("atomic.LoadInt32", kAtomic, 0)
 	vsched.HAcq(*vsched.RelSlot(0))
 	*vsched.RelSlot(0) = vsched.HRel()
@@ -48,6 +52,7 @@ func StoreInt32(addr *int32, v int32) {
 		realatomic.StoreInt32(addr, v)
 		return
 	}
+	vsched.SetDep(uint64(uintptr(unsafe.Pointer(addr)))*2)
 	vsched.Yield("atomic.StoreInt32", kAtomic, 0)
 	vsched.HAcq(*vsched.RelSlot(0))
 	*vsched.RelSlot(0) = vsched.HRel()
@@ -58,6 +63,7 @@ func LoadInt64(addr *int64) int64 {
 	if !vsched.Active() {
 		return realatomic.LoadInt64(addr)
 	}
+	vsched.SetDep(uint64(uintptr(unsafe.Pointer(addr)))*2)
 	vsched.Yield("atomic.LoadInt64", kAtomic, 0)
 	vsched.HAcq(*vsched.RelSlot(0))
 	*vsched.RelSlot(0) = vsched.HRel()
@@ -69,6 +75,7 @@ func StoreInt64(addr *int64, v int64) {
 		realatomic.StoreInt64(addr, v)
 		return
 	}
+	vsched.SetDep(uint64(uintptr(unsafe.Pointer(addr)))*2)
 	vsched.Yield("atomic.StoreInt64", kAtomic, 0)
 	vsched.HAcq(*vsched.RelSlot(0))
 	*vsched.RelSlot(0) = vsched.HRel()
@@ -79,6 +86,7 @@ func CompareAndSwapInt32(addr *int32, old, new int32) bool {
 	if !vsched.Active() {
 		return realatomic.CompareAndSwapInt32(addr, old, new)
 	}
+	vsched.SetDep(uint64(uintptr(unsafe.Pointer(addr)))*2)
 	vsched.Yield("atomic.CompareAndSwapInt32", kAtomic, 0)
 	vsched.HAcq(*vsched.RelSlot(0))
 	*vsched.RelSlot(0) = vsched.HRel()
